@@ -140,6 +140,7 @@ func (t *Transaction) With(name string, readOnly bool, createFn func() (Cachable
 	// uses) and keeps it until the cache is registered in writtenCaches. The manager
 	// lock is then never held while waiting for another lock.
 	if !readOnly {
+		verifYield("With.xPreTxLock")
 		t.mu.Lock()
 	}
 	// We start with manager lock so others don't try to create the same cache
@@ -210,7 +211,6 @@ func (t *Transaction) With(name string, readOnly bool, createFn func() (Cachable
 			 * like insert, update or delete, then we'll have to wait anyway because
 			 * of bbolt (recall bbolt only allows one read-write transaction at a
 			 * time) which is absolutely fine for a search heavy workload. */
-			verifYield("With.xTxLock")
 			/* Have we locked this cache before? Within a transaction we hold
 			 * onto writes until we know the transaction is committed. This is
 			 * to ensure other readers or writers do not see partial results.
@@ -281,6 +281,7 @@ func (t *Transaction) With(name string, readOnly bool, createFn func() (Cachable
 		verifYield("With.nFailMgrUnlock")
 		t.manager.mu.Unlock()
 		if !readOnly {
+			verifYield("With.nFailTxUnlock")
 			t.mu.Unlock()
 		}
 		return fmt.Errorf("error while creating fresh cache: %w", err)
@@ -304,7 +305,6 @@ func (t *Transaction) With(name string, readOnly bool, createFn func() (Cachable
 		// The following shared cache lock is released when the transaction is done.
 		verifYield("With.nObjLock")
 		s.mu.Lock()
-		verifYield("With.nTxLock")
 		verifYield("With.nRegister")
 		t.writtenCaches[name] = s
 		verifYield("With.nTxUnlock")
